@@ -78,26 +78,38 @@ def confirm(src, seed_id):
 
 
 def run(seed_id, props):
+    """Run quick checks against the seeded change in a scratch worktree of /repo HEAD (TASKCHAIN_REPO points the
+    checks at it), so /repo itself stays untouched and several seeds can be tried while other work goes on.
+    Evidence written by these runs goes to a scratch directory, not /verif/evidence."""
     d = SEEDED / seed_id
     meta = json.loads((d / 'meta.json').read_text())
     props = props or [meta.get('property')]
-    rc, out = sh('git -C /repo status --porcelain --untracked-files=no')
-    assert out.strip() == '', f'/repo is not clean: {out}'
-    rc, out = sh(f'git -C /repo apply {d / "patch.diff"}')
+    wt = Path(f'/tmp/seedrun_{seed_id}_{os.getpid()}')
+    rc, out = sh(f'git -C /repo worktree add -q --detach {wt} HEAD')
     assert rc == 0, out
     results = {}
     try:
+        rc, out = sh(f'git apply {d / "patch.diff"}', cwd=wt)
+        assert rc == 0, out
         for p in props:
             t0 = time.time()
-            rc, out = sh(f'{PY} {VERIF}/bin/check.py {p} --tier quick', cwd=VERIF, timeout=3000)
-            viol = [l for l in out.splitlines() if l.startswith('VIOLATION')]
+            ev = Path(f'/tmp/seedrun_ev_{seed_id}_{os.getpid()}')
+            rc, out = sh(f'{PY} {VERIF}/bin/check.py {p} --tier quick', cwd=VERIF, timeout=3000,
+                         env={'TASKCHAIN_REPO': str(wt), 'TCVERIF_EVIDENCE_DIR': str(ev),
+                              'TCVERIF_REPLAY_DIR': str(ev / 'replays')})
+            lines = out.splitlines()
+            viol = [i for i, l in enumerate(lines) if l.startswith('VIOLATION')]
             results[p] = {'exit': rc, 'violations': len(viol), 'wall_s': round(time.time() - t0),
-                          'first': (out.splitlines()[out.splitlines().index(viol[0]) + 1][:300] if viol else '')}
-            print(seed_id, p, 'exit', rc, 'violations', len(viol), results[p]['first'][:200])
+                          'first': (lines[viol[0] + 1][:300] if viol and viol[0] + 1 < len(lines) else ''),
+                          'at_repo_commit': sh('git -C /repo rev-parse --short HEAD')[1].strip(),
+                          'at_verif_commit': sh(f'git -C {VERIF} rev-parse --short HEAD')[1].strip()}
+            if rc == 2:
+                results[p]['machinery'] = out[-400:]
+            print(seed_id, p, 'exit', rc, 'violations', len(viol), results[p]['first'][:200], flush=True)
+            shutil.rmtree(ev, ignore_errors=True)
     finally:
-        sh('git -C /repo checkout -- .')
-        # evidence files were rewritten by runs on a modified tree: restore the committed ones
-        sh(f'git -C {VERIF} checkout -- evidence')
+        sh(f'git -C /repo worktree remove --force {wt}')
+        shutil.rmtree(wt, ignore_errors=True)
     meta.setdefault('detection', {}).update(results)
     (d / 'meta.json').write_text(json.dumps(meta, indent=1) + '\n')
     return results
